@@ -54,7 +54,7 @@ func (c *Ctx) execInstr(in ssa.Instruction, st *State) {
 		}
 	case *ssa.Alloc:
 		et := x.Type().Underlying().(*types.Pointer).Elem()
-		if !x.Heap && c.localExact[x] {
+		if c.localExact[x] {
 			st.locals[x] = c.zeroVal(et)
 			c.set(x, &Val{K: VScalar, T: x.Type(), S: c.localAddr(x), Loc: &Loc{Kind: LLocal, Alloc: x}})
 			return
@@ -113,7 +113,10 @@ func (c *Ctx) execInstr(in ssa.Instruction, st *State) {
 			c.set(x, res)
 		}
 	case *ssa.Defer:
-		c.hasDefer = true
+		// only deferred calls that may change the modelled heap make RunDefers a havoc
+		if !c.callIsPure(x.Common()) {
+			c.hasDefer = true
+		}
 		c.call(x, x.Common(), st, true)
 	case *ssa.Go:
 		c.drop("go")
@@ -527,6 +530,7 @@ func (c *Ctx) unop(x *ssa.UnOp, st *State) {
 func (c *Ctx) fieldAddr(x *ssa.FieldAddr, st *State) {
 	p := c.operand(x.X, st)
 	stT := x.X.Type().Underlying().(*types.Pointer).Elem()
+	c.P.typeByKey[typeKey(stT)] = stT
 	ft := stT.Underlying().(*types.Struct).Field(x.Field).Type()
 	if p.Loc != nil && p.Loc.Kind == LLocal {
 		nl := &Loc{Kind: LLocal, Alloc: p.Loc.Alloc, Path: append(append([]pathElem(nil), p.Loc.Path...), pathElem{Field: x.Field})}
